@@ -73,6 +73,7 @@ func probeBytesKey() bool {
 }
 
 const sigNullKey = "null-key-pseudo-field-in-delta"
+const sigBytesKey = "diff-panics-on-bytes-key"
 
 // knownOpen: the signature is an open entry of KNOWN_FINDINGS.jsonl for C03.
 func knownOpen(verif, sig string) bool {
@@ -264,6 +265,15 @@ func main() {
 		run.LogCase(idx, c)
 		ob := &obs{c: c}
 		all = append(all, ob)
+		if c.Probe == "bytes-key" {
+			// replayed on its own the probe always reports; in a normal run only while the finding is registered
+			ob.skip = true
+			if probeBytesKey() && (o.Replay != "" || knownOpen(o.Verif, sigBytesKey)) {
+				run.Fail(idx, sigBytesKey, "diff.Diff([{__key: []byte(k), a: 1}], [{__key: []byte(k), a: 2}]) panics: Go cannot hash or compare []byte", c)
+			}
+			run.Count("probe:bytes-key", false)
+			continue
+		}
 		if c.Fuzz != nil { // a replayed fuzz case
 			ob.fuzz = true
 			runFuzz(run, idx, ob, &jsIn, &jsIdx)
@@ -302,6 +312,9 @@ func main() {
 			run.Hist("leaves:" + k)
 		}
 		ob.nullKey = kinds["null-key"]
+		if ob.nullKey {
+			ob.oldModel = false // outside the domain of DiffMerge/Model.v
+		}
 		shapes := map[string]bool{}
 		arrayShapes(old, shapes)
 		arrayShapes(nw, shapes)
